@@ -86,8 +86,9 @@ class Design:
                 "subs": {s[0]: (s[1], bool(s[2])) for s in subs},
             }
         elif k == "ext":
-            _, xid, name, ports = op
-            self.exts[xid] = {"name": name, "ports": [(p[0], p[1], p[2]) for p in ports]}
+            xid, name, ports = op[1], op[2], op[3]
+            domain = op[4] if len(op) > 4 else "verif"
+            self.exts[xid] = {"name": name, "domain": domain, "ports": [(p[0], p[1], p[2]) for p in ports]}
         elif k == "module":
             _, mid, name, style = op
             self.mods[mid] = Mod(mid, name, style)
@@ -553,7 +554,7 @@ def flatten(design: Design, top, locals_=None):
                 if target[0] == "prim":
                     kind = "prim:" + target[1]
                 else:
-                    kind = "ext:" + design.exts[target[1]]["name"]
+                    kind = "ext:" + design.exts[target[1]]["domain"] + "/" + design.exts[target[1]]["name"]
                 nodes[cpath] = kind
                 leaves.append({"path": cpath, "kind": kind, "params": dict(target[2]), "terms": terms})
 
